@@ -166,4 +166,37 @@ def nodeRes (exclusive : Bool) (fl : List Flavor) (sw : Switches) (trunkReady : 
     some ("eni", fl.foldl (fun acc f => if f.kind = .standard then f.count else acc) 0)
   else if sw.trunk ∧ trunkReady then some ("member-eni", member) else none
 
+/-! ## the Node CR's capacity follows the instance type (pkg/controller/node/node.go `createOrUpdate`) -/
+
+/-- what the node controller reads off the Kubernetes Node: instance type, instance id (provider id), zone, region -/
+structure NodeMeta where
+  type : Nat
+  id : Nat
+  zone : Nat
+  region : Nat
+  deriving DecidableEq, Repr
+
+/-- the Node CR as far as capacity goes: the metadata it records and the instance type whose limits `Spec.NodeCap`
+    carries (`none` = no capacity written yet) -/
+structure NodeCR where
+  md : NodeMeta
+  capOf : Option Nat
+  deriving DecidableEq, Repr
+
+/-- one reconcile: when the recorded metadata differs from the node's in any field, metadata and capacity are
+    rewritten together from the limits of the node's current type; a failing limits lookup leaves the stored CR as
+    it was (the error is returned before anything is written) -/
+def nodeReconcile (cr : Option NodeCR) (info : NodeMeta) (lookupFails : Bool) : Option NodeCR × Bool :=
+  match cr with
+  | some c =>
+    if c.md = info then (some c, true)
+    else if lookupFails then (some c, false)
+    else (some { md := info, capOf := some info.type }, true)
+  | none =>
+    if lookupFails then (none, false) else (some { md := info, capOf := some info.type }, true)
+
+def nodeRun (cr : Option NodeCR) : List (NodeMeta × Bool) → Option NodeCR
+  | [] => cr
+  | (i, f) :: rest => nodeRun (nodeReconcile cr i f).1 rest
+
 end Terway.Capacity
